@@ -83,6 +83,25 @@ where
     id
 }
 
+/// Scheduling point before a `SeqCst` fence. All such fences are dependent
+/// operations on one object of the execution.
+pub(crate) fn branch_seq_cst_fence() {
+    if std::thread::panicking() {
+        return;
+    }
+
+    let object = match execution(|execution| execution.threads.seq_cst_fence_object) {
+        Some(object) => object,
+        None => {
+            let object = Notify::new(false, false);
+            execution(|execution| execution.threads.seq_cst_fence_object = Some(object));
+            object
+        }
+    };
+
+    object.branch(Location::disabled());
+}
+
 /// Scheduling point before `thread` parks or is unparked. Whether a `park`
 /// finds the token of an `unpark` depends on their order, so the two are
 /// dependent operations on an object that belongs to the thread.
